@@ -2,6 +2,7 @@ package roomsim
 
 import (
 	"bytes"
+	"encoding/json"
 	"fmt"
 	"io"
 	"os"
@@ -508,9 +509,13 @@ func (rm *room) mutatePL(before map[ref.Key]string, actor user, honest bool) map
 	if rm.priv && rm.isCreator(actor.id) {
 		my = 1000
 	}
-	level := func() int {
+	level := func() any {
 		if honest {
 			return int(my) - t.Intn(60)
+		}
+		if t.Chance(120) { // non-integer levels: legal spellings before v10, refused from v10
+			rm.r.Probe("non_integer_level_proposed")
+			return sim.Pick(t, []any{fmt.Sprint(int(my)), "50", 50.5, json.Number("7.5e1"), " 25", "1e2"})
 		}
 		return sim.Pick(t, []int{int(my) + 1, int(my) + 50, int(my), 100, 0, -1, 9000})
 	}
